@@ -294,9 +294,10 @@ class Matrix3(Matrix):
         cos_dec = np.cos(dec._values_)
         sin_dec = np.sin(dec._values_)
 
-        values = np.stack([-sin_ra,            cos_ra,           0.,
+        values = np.stack(np.broadcast_arrays(
+                           -sin_ra,            cos_ra,           0.,
                            -cos_ra * sin_dec, -sin_ra * sin_dec, cos_dec,
-                            cos_ra * cos_dec,  sin_ra * cos_dec, sin_dec],
+                            cos_ra * cos_dec,  sin_ra * cos_dec, sin_dec),
                            axis=-1)
         return Matrix3(values.reshape(values.shape[:-1] + (3,3)),
                        Qube.or_(ra._mask_, dec._mask_))
